@@ -5,7 +5,7 @@ export GOFLAGS=-mod=mod GOPROXY=off GOSUMDB=off GOTOOLCHAIN=local
 P=$1; K=$2; OUT=$3; shift 3
 CHECKS="$@"; [ -z "$CHECKS" ] && CHECKS="$P"
 S=/tmp/ev/$P-$K
-rm -rf $S; mkdir -p /tmp/ev; cp -r /repo $S; rm -rf $S/.git
+rm -rf $S; mkdir -p /tmp/ev; cp -r ${EVAL_BASE:-/repo} $S; rm -rf $S/.git
 cd $S || exit 2
 R="$P-$K:"
 cp $OUT/demo${K}_test.go . 2>/dev/null
